@@ -4,6 +4,7 @@ CONSTANTS
   FileKinds <- NoFiles
   MaxFiles = 1
   Untils <- AllUntils
+  Decorations <- Plain
   ArgStates <- BadArgs
 INVARIANT TypeOK
 INVARIANT ExitCodeTable
